@@ -4,6 +4,7 @@ import (
 	"encoding/json"
 	"fmt"
 	"os"
+	"sort"
 	"strings"
 
 	"wv/internal/wvlib"
@@ -90,6 +91,50 @@ func c01One(env *Env, m *wvlib.Model, c *PairCase, comps []Comp) {
 			env.R.Violate("output-unreadable", rerr.Error(), c)
 		} else if d := wvlib.DiffTrees(got, nw); d != "" {
 			env.R.Violate("tree-differs", comp.String()+": "+d, c)
+		}
+		if ci == 0 && rerr == nil {
+			// model: the tree the fresh bowl makes of the new build (Prepare + every file written once), files the
+			// patcher transposes going through the pool writer, the others through the entry writer
+			nl := base + "/new.lst"
+			writeBuildListing(nl, ev.Res.New, nw)
+			var tr []string
+			cur := int64(-1)
+			_, _, pm, _ := decodePatch(ev.Res.Patch)
+			for k, mm := range pm {
+				if mm.Kind == "H" {
+					cur = mm.B
+					// a series whose first op spans the whole of an equally sized old file is a transposition
+					if k+1 < len(pm) && pm[k+1].Kind == "O" && pm[k+1].A == 0 && pm[k+1].C == 0 && int(cur) < len(ev.Res.New.Files) && int(pm[k+1].B) < len(ev.Res.Old.Files) {
+						of, nf := ev.Res.Old.Files[pm[k+1].B], ev.Res.New.Files[cur]
+						if of.Size == nf.Size && pm[k+1].D == (nf.Size+int64(wvlib.BS)-1)/int64(wvlib.BS) {
+							tr = append(tr, fmt.Sprint(cur))
+						}
+					}
+				}
+			}
+			trs := "-"
+			if len(tr) > 0 {
+				trs = strings.Join(tr, ",")
+			}
+			ans, merr := m.Ask(fmt.Sprintf("freshtree %s %s", nl, trs))
+			impl := "ok " + treeCanonLines(got)
+			mcmp := ans
+			if strings.HasPrefix(ans, "ok ") {
+				var ls []string
+				for _, l := range strings.Split(ans[3:], ";") {
+					if l != "" {
+						ls = append(ls, l)
+					}
+				}
+				sort.Strings(ls)
+				mcmp = "ok " + strings.Join(ls, ";")
+			}
+			if merr != nil {
+				env.R.Disagree(c, trunc(impl, 200), "MODEL-DIED", "n/a")
+			} else if mcmp != impl {
+				env.R.Disagree(c, "fresh tree: "+firstDiffContext(impl, mcmp), "fresh tree: "+firstDiffContext(mcmp, impl), "n/a")
+			}
+			env.R.Count("fresh-tree-compared-with-model", 1)
 		}
 		os.RemoveAll(out)
 		env.R.Count("comp:"+comp.String(), 1)
